@@ -3,7 +3,10 @@
 Trees, not graphs.  Every node carries the *name* of its Go type (`reflect.Type` identity is modelled as
 equality of names; the probe's type registry gives distinct types distinct names), the constructor fixes the
 `reflect.Kind` class.  Pointers, slices and maps carry an identity label (`0` = fresh object, never shared)
-because `reflect.DeepEqual` short-cuts on identical pointers / backing arrays / map headers.  Maps are kept as
+because `reflect.DeepEqual` short-cuts on identical pointers / map headers, and on slices of EQUAL LENGTH with the same
+data pointer (the label of a slice names its data pointer: two sub-slices of one backing array that start at the same
+element carry the same label and may differ in length).  Apart from that short-cut storage sharing is erased: on
+acyclic values `reflect.DeepEqual` depends on it only where a NaN or a non-nil func sits below the shared object.  Maps are kept as
 *canonical* association lists (keys strictly increasing; the driver rejects anything else), keys restricted to
 bool/integer/string kinds, so that DeepEqual's lookup loop coincides with the pairwise comparison used here.
 
@@ -107,7 +110,7 @@ def deepEq : Val → Val → Bool
   | .strct t1 f, .strct t2 g => t1 == t2 && deepEqs f g
   | .arr t1 f, .arr t2 g => t1 == t2 && deepEqs f g
   | .nilslice t1, .nilslice t2 => t1 == t2
-  | .slice t1 i f, .slice t2 j g => t1 == t2 && ((i != 0 && i == j) || deepEqs f g)
+  | .slice t1 i f, .slice t2 j g => t1 == t2 && ((i != 0 && i == j && f.len == g.len) || deepEqs f g)
   | .nilmap t1, .nilmap t2 => t1 == t2
   | .map t1 i k1 v1, .map t2 j k2 v2 => t1 == t2 && ((i != 0 && i == j) || (deepEqs k1 k2 && deepEqs v1 v2))
   | .nilptr t1, .nilptr t2 => t1 == t2
